@@ -219,6 +219,8 @@ def plan_subop(w, so, n):
                "off": 1e8 if so.get("big") else 0.0}
         if 0 in part:
             w.probes["empty_rank_in_save"] += 1
+        if so.get("master_only") and so["overwrite"] and n > 1:
+            w.probes["master_only_save_then_collective_ops"] = w.probes.get("master_only_save_then_collective_ops", 0) + 1
         exists = bool(idx & set(range(m + 1))) or (so["kind"] == "residual" and mean)
         plan = dict(so, part=part, entry=new)
         if so["overwrite"] or not exists:
@@ -315,6 +317,15 @@ def rank_script(w, plans):
             base = f"{ROOT}/{pl['base']}"
             try:
                 if pl["op"] == "skip":
+                    out.append(("ok", None))
+                    continue
+                if pl["op"] == "save" and pl.get("master_only") and pl["overwrite"] and comm is not None:
+                    # "if master: save(...)" with a non-distributed list, followed by collective loads:
+                    # only the synchronisation at the start of load() orders the two
+                    comm.Barrier()     # a sane script synchronises before one task starts writing on its own
+                    if r == 0:
+                        sl = build(pl["entry"], 0, len(pl["entry"]["uids"]), None)
+                        sl.save(base, overwrite=True)
                     out.append(("ok", None))
                     continue
                 if pl["op"] == "save":
@@ -527,7 +538,7 @@ def strategies():
         "ftype": st.sampled_from(["field", "multi"]), "m": st.integers(1, 5),
         "cuts": st.lists(st.integers(0, 5), min_size=0, max_size=3), "overwrite": st.booleans(),
         "negs": st.lists(st.integers(0, 1), min_size=0, max_size=5), "sub": st.booleans(),
-        "big": st.sampled_from([False, False, True])})
+        "big": st.sampled_from([False, False, True]), "master_only": st.sampled_from([False, False, True])})
     save_ow = save.map(lambda d: dict(d, overwrite=True))
     load = st.fixed_dictionaries({"op": st.just("load"), "base": base, "cls": st.sampled_from(["plain", "residual"])})
     stats = st.fixed_dictionaries({"op": st.just("stats"), "base": base, "opname": opn})
@@ -584,6 +595,29 @@ def hunt(job):
     except BaseException as e:  # noqa
         if state["fail"] is None:
             raise
+    if state["fail"]:
+        sig = state["fail"]["sig"]
+
+        def fails(phs):
+            try:
+                run_history(phs)
+            except Violation as v:
+                return v.sig == sig
+            except Exception:
+                return False
+            return False
+        phs = harness.ddmin_list(state["fail"]["phases"], fails, 120)
+        for i, ph in enumerate(phs):                       # also drop sub-operations inside the phases
+            if "subops" in ph and len(ph["subops"]) > 1:
+                ph2 = harness.ddmin_list(ph["subops"], lambda so: fails(phs[:i] + [dict(ph, subops=so)] + phs[i + 1:]), 40)
+                phs = phs[:i] + [dict(ph, subops=ph2)] + phs[i + 1:]
+        coll = []
+        try:
+            run_history(phs, coll)
+        except Violation:
+            pass
+        state["fail"]["phases"] = phs
+        state["fail"]["choices"] = [c.get("choices") for c in coll]
     out = {"runs": state["runs"], "phases": state["phases"], "fail": state["fail"],
            "digests": sorted(state["digests"]), "nontrivial": sorted(state["nontrivial"]),
            "stats": state["stats"], "probes": state["probes"], "known": state["known"], "sample": state["sample"]}
